@@ -39,10 +39,11 @@ import (
 type AgentSub struct {
 	Mode   string   `json:"mode"`
 	Target string   `json:"target,omitempty"`
-	Msgs   []string `json:"msgs,omitempty"` // STREAM / ONCE: "poll" | sub-stream | sub-once | sub-poll | empty
-	After  int      `json:"after"`          // ... sent after this many responses were read (0: right behind the SubscriptionList)
-	Rounds int      `json:"rounds"`         // POLL: polled rounds behind the initial one
-	Limit  int      `json:"limit"`          // responses read from a stream that never ends
+	Dress  int      `json:"dress,omitempty"` // see subscribeMsg
+	Msgs   []string `json:"msgs,omitempty"`  // STREAM / ONCE: "poll" | sub-stream | sub-once | sub-poll | empty
+	After  int      `json:"after"`           // ... sent after this many responses were read (0: right behind the SubscriptionList)
+	Rounds int      `json:"rounds"`          // POLL: polled rounds behind the initial one
+	Limit  int      `json:"limit"`           // responses read from a stream that never ends
 }
 
 // agentSessionPatience bounds one subscription. It never decides a verdict:
@@ -135,7 +136,7 @@ func (ss *Session) oneAgentSub(conn *grpc.ClientConn, sc *Scenario, si int, sub 
 	if serr != nil {
 		return "environment", nil
 	}
-	if e := stream.Send(subscribeMsg(sub.Mode, sub.Target, 0)); e != nil {
+	if e := stream.Send(subscribeMsg(sub.Mode, sub.Target, 0, sub.Dress)); e != nil {
 		return "environment", nil
 	}
 	// read reads up to n responses; ended: the Agent closed the stream
